@@ -11,10 +11,38 @@
 // in the protected per-pair function actual_scatter_estimate(result, A, B) (harness-side subclass `Sim`), for the pair that
 // find_detectors reports for every bin; the stored bin value must equal estimate(A,B).
 //
-// Known finding (probe in known/C16/): known_signature() classifies a history on the JSON alone (F4 repeated automatic
-// scatter-point down-sampling) and such a case is rejected before it runs; the GENERATOR rewrites its histories so that they
-// stay outside this class (explicit scatter-point image before the set_up) and the search goes on behind it.
-// VERIF_NO_EXCLUDE=1 (or =F4) switches classification and rewriting off.
+// ENTRY POINTS (third session: entry-point audit).  The history alphabet contains every public setter / entry point of
+// ScatterSimulation and SingleScatterSimulation that changes what process_data computes or where it stores it:
+//   set_activity_image_sptr / set_activity_image(filename), set_density_image_sptr / set_density_image(filename),
+//   set_density_image_for_scatter_points_sptr / set_density_image_for_scatter_points(filename),
+//   downsample_density_image_for_scatter_points(explicit arguments) on H itself, set_image_downsample_factors,
+//   set_attenuation_threshold, set_template_proj_data_info(ProjDataInfo) / (filename) (+ downsample_scanner(r,d) or
+//   set_num_downsample_scanner_rings/dets + downsample_scanner()), set_exam_info / set_exam_info_sptr,
+//   set_use_cache / set_cache_enabled, downsample_images_to_scanner_size, set_up, process_data with the output given by
+//   set_output_proj_data_sptr(sptr) / set_output_proj_data(filename or "") / set_output_proj_data_sptr(exam, info, filename)
+//   or created by the class (downsample_scanner, parsing), the protected per-bin function scatter_estimate(bin) in a
+//   generated ORDER (subclass), and the parsing route (H constructed by SingleScatterSimulation(parameter file)).
+//   At the end one further object is configured through set_downsample_scanner_bool / set_num_downsample_scanner_* (or
+//   the corresponding keywords) so that set_up() itself down-samples the scanner (set_up may be called only once on such an
+//   object: "set_up() called twice. This is currently not supported.").
+//   Oracle for all of them: after set_up the result equals that of a freshly configured simulation (configured through
+//   the *_sptr setters, which the first two sessions checked) in the same or the OTHER cache mode.
+//   Files are written by the harness (VERIF_TMP) and the model uses what the harness itself reads back from them.
+//   Not in the alphabet: ask_parameters() (interactive), set_randomly_place_scatter_points(true) (rand() seeded with time()).
+//
+// Known findings (probes in known/C16/): known_signature() classifies a history on the JSON alone and such a case is
+// rejected before it runs; the GENERATOR rewrites its histories so that they stay outside these classes (explicit
+// scatter-point image before the set_up) and the search goes on behind them.  VERIF_NO_EXCLUDE=1 (or a list such as
+// "F4,F7") switches classification and rewriting off.
+//   F4 repeated automatic scatter-point down-sampling (the derived zoom factors overwrite the settings; derived image kept
+//      by set_template_proj_data_info)
+//   F5 a DERIVED scatter-point image is kept by downsample_images_to_scanner_size although the attenuation image changed
+//   F6 a DERIVED scatter-point image is kept by set_image_downsample_factors although the factors changed
+//      (F5, F6: same root cause as F4: the class does not know whether its scatter-point image is derived)
+//   F7 set_attenuation_threshold after the scatter points were sampled: set_up does not re-sample them.  The threshold is not in
+//      the list of the property sentence (activity image, attenuation image, scatter-point image, template, energy settings):
+//      outside the property, so it is not a finding; the generator keeps rewriting around it (the threshold is set before
+//      the scatter points are sampled) and counts it.
 // Repaired in /repo and part of the normal search again (regression inputs replays/C16/fixed_*.json): F1 stale 511 keV
 // efficiency after an energy-window change, F3 NaN from the automatic scatter-point image of single-ring scanners.
 // F2 (debug self check of set_up that reads 0 < 0 for single-ring templates) was no violation of the property: see set_up_obj().
@@ -27,19 +55,31 @@
 //  * check_z_to_middle_consistent(): (min_z+max_z)*voxel_size_z/2 of attenuation / scatter-point image must agree
 //    with the activity image within 0.1 mm -> all images of a case share (nz-1)*vz.
 //  * downsample_density_image_for_scatter_points(): error() if zoom_z>0 and |(new_z-1)/(old_z-1) - zoom_z| > .1;
-//    with a negative zoom the template must be set (it is dereferenced).  new_z >= 2 (new_z==1 gives zoom_z 0).
+//    with a negative zoom the template must be set (it is dereferenced).  new_z >= 2 (new_z==1 gives zoom_z 0);
+//    old_z >= 2 (zoom_z = (new_z-1)/(old_z-1)).
+//  * set_image_downsample_factors(): error() for negative factors.
 //  * process_data(): needs set_up() and an output ProjData with the template's ProjDataInfo.
 //  * randomly_place_scatter_points=false (otherwise rand() seeded with time()).
 #include "stir_gen.h"
 #include "stir/scatter/SingleScatterSimulation.h"
 #include "stir/ProjDataInMemory.h"
+#include "stir/ProjDataInterfile.h"
 #include "stir/ProjDataInfoCylindricalNoArcCorr.h"
 #include "stir/ExamInfo.h"
 #include "stir/SegmentBySinogram.h"
 #include "stir/Bin.h"
+#include "stir/zoom.h"
+#include "stir/ZoomOptions.h"
+#include "stir/IO/write_to_file.h"
+#include "stir/IO/read_from_file.h"
 #include <map>
 #include <tuple>
 #include <cstdlib>
+#include <fstream>
+#include <sstream>
+#include <iomanip>
+#include <filesystem>
+#include <unistd.h>
 
 using namespace vf;
 using namespace stir;
@@ -51,8 +91,8 @@ const double TOL_SYM = 1e-5;   // out[bin(A,B)] vs out[bin(B,A)]
 const double TOL_LIN = 1e-4;   // linearity
 const double TOL_CACHE = 1e-5; // cache on vs off
 
-//! the exclusion of the known finding F4 is on by default;
-//! VERIF_NO_EXCLUDE=1 (or "all", or a list containing F4) switches it off
+//! the exclusions of the known findings are on by default;
+//! VERIF_NO_EXCLUDE=1 (or "all", or a list containing the id) switches them off
 bool
 no_exclude(const char* id)
 {
@@ -75,19 +115,75 @@ enum Op
   SET_CACHE = 5,
   SET_UP = 6,
   PROCESS = 7,
-  N_OPS = 8
+  // third session (codes 0..7 keep their meaning: saved replays use only those)
+  SET_THR = 8,            // set_attenuation_threshold
+  SET_ZOOM = 9,           // set_image_downsample_factors
+  DOWNSAMPLE_IMAGES = 10, // downsample_images_to_scanner_size
+  DOWNSAMPLE_SP = 11,     // downsample_density_image_for_scatter_points(explicit arguments) on H
+  SET_CACHE_ENABLED = 12, // set_cache_enabled
+  SET_EXAM_SPTR = 13,     // set_exam_info_sptr
+  SET_ACT_FILE = 14,      // set_activity_image(filename)
+  SET_ATT_FILE = 15,      // set_density_image(filename)
+  SET_SP_FILE = 16,       // set_density_image_for_scatter_points(filename)
+  SET_TMPL_FILE = 17,     // set_template_proj_data_info(filename)  (sets the exam info as well)
+  EVAL_BINS = 18,         // scatter_estimate(bin) for a generated permutation / subset of the bins
+  N_OPS = 19
 };
 
-//! access to the per-detector-pair function (protected in STIR); behaviour unchanged
+bool
+is_setter(int code)
+{
+  return code != SET_UP && code != PROCESS && code != EVAL_BINS;
+}
+
+//! access to the per-detector-pair and per-bin functions (protected in STIR); behaviour unchanged
 struct Sim : SingleScatterSimulation
 {
+  Sim() {}
+  explicit Sim(const std::string& parameter_filename)
+      : SingleScatterSimulation(parameter_filename)
+  {}
   using SingleScatterSimulation::actual_scatter_estimate;
   using SingleScatterSimulation::find_detectors;
+  using SingleScatterSimulation::scatter_estimate;
 };
 
 typedef VoxelsOnCartesianGrid<float> Image;
 typedef std::tuple<int, int, int, int> BinKey; // seg, ax, view, tang
 typedef std::map<BinKey, float> Out;
+
+const double THR_VALUES[] = { 0.01, 0.005, 0.03, 0.06, 0.02 };
+
+// ---- temporary files (only under VERIF_TMP; removed at the end of each case) -------------------------
+struct TmpDir
+{
+  std::string dir;
+  int counter = 0;
+  const std::string& path()
+  {
+    if (dir.empty())
+      {
+        static long serial = 0;
+        const char* e = std::getenv("VERIF_TMP");
+        const std::string base = (e && *e) ? std::string(e) : cat("/tmp/verif_", getpid());
+        std::filesystem::create_directories(base);
+        dir = cat(base, "/c16_", getpid(), "_", ++serial);
+        std::filesystem::create_directories(dir);
+      }
+    return dir;
+  }
+  std::string file(const std::string& stem) { return cat(path(), "/", stem, "_", ++counter); }
+  ~TmpDir()
+  {
+    if (!dir.empty())
+      {
+        std::error_code ec;
+        std::filesystem::remove_all(dir, ec);
+        if (!(std::getenv("VERIF_TMP") && *std::getenv("VERIF_TMP")))
+          std::filesystem::remove(cat("/tmp/verif_", getpid()), ec); // only if empty
+      }
+  }
+};
 
 // ---- construction of the pooled objects ------------------------------------------------------------
 shared_ptr<Image>
@@ -133,13 +229,40 @@ make_tmpl(const json& j)
   return t;
 }
 
+//! number of rings of the template the simulation works with (after downsample_scanner)
+int
+tmpl_rings(const json& t)
+{
+  return t["kind"] == "down" ? t["new_rings"].get<int>() : t["scanner"]["rings"].get<int>();
+}
+
+//! set_template_proj_data_info(ProjDataInfo) (+ downsample_scanner).  via_settings: the numbers of rings/detectors are
+//! given by set_num_downsample_scanner_rings/dets and downsample_scanner() is called with its defaults
+//! (downsample_scanner: "if (downsample_scanner_rings > 1) new_num_rings = downsample_scanner_rings", so only for >= 2 rings)
 void
-apply_tmpl(SingleScatterSimulation& s, const Tmpl& t)
+apply_down(SingleScatterSimulation& s, const Tmpl& t, bool via_settings)
+{
+  if (!t.down)
+    return;
+  Succeeded ok = Succeeded::yes;
+  if (via_settings && t.new_rings >= 2)
+    {
+      s.set_num_downsample_scanner_rings(t.new_rings);
+      s.set_num_downsample_scanner_dets(t.new_dets);
+      ok = s.downsample_scanner();
+      stats().count("downsample_scanner() with defaults from set_num_downsample_scanner_*");
+    }
+  else
+    ok = s.downsample_scanner(t.new_rings, t.new_dets);
+  if (ok != Succeeded::yes)
+    error("downsample_scanner returned Succeeded::no");
+}
+
+void
+apply_tmpl(SingleScatterSimulation& s, const Tmpl& t, bool via_settings = false)
 {
   s.set_template_proj_data_info(*t.pdi);
-  if (t.down)
-    if (s.downsample_scanner(t.new_rings, t.new_dets) != Succeeded::yes)
-      error("downsample_scanner returned Succeeded::no");
+  apply_down(s, t, via_settings);
 }
 
 shared_ptr<ExamInfo>
@@ -226,33 +349,417 @@ make_sp(const Pools& P, const SpRecipe& r)
   return img;
 }
 
+// ---- zoom settings ------------------------------------------------------------------------------------
+//! the arguments of set_image_downsample_factors (expl == false: never called, the defaults -1 are in force)
+struct Zoom
+{
+  bool expl = false;
+  float zxy = -1, zz = -1;
+  int sxy = -1, sz = -1;
+  int nz_ref = 0; // number of attenuation planes for which zz == (sz-1)/(nz_ref-1) exactly
+  bool operator==(const Zoom& o) const { return expl == o.expl && zxy == o.zxy && zz == o.zz && sxy == o.sxy && sz == o.sz; }
+};
+
+//! factors that are a fixed point of downsample_density_image_for_scatter_points for an attenuation image of nz planes:
+//! explicit size new_z and zoom_z = (new_z-1)/(nz-1), which is what the function stores ("adjust zoom_z to cope with ugly
+//! shift to middle of scanner problem")
+Zoom
+exact_zoom(int zxy_code, int new_z, int sxy_code, int nz)
+{
+  Zoom z;
+  z.expl = true;
+  z.zxy = 0.3F + 0.1F * float(zxy_code % 10);
+  z.zz = static_cast<float>(new_z - 1) / (nz - 1);
+  const int sv = sxy_code % 4;
+  z.sxy = sv < 2 ? -1 : (sv == 2 ? 3 : 5);
+  z.sz = new_z;
+  z.nz_ref = nz;
+  return z;
+}
+
+Zoom
+initial_zoom(const json& c)
+{
+  Zoom z;
+  if (!c["auto_zoom"].is_object())
+    return z;
+  // explicit factors for the automatic down-sampling in set_up: exact for the (shared) number of attenuation planes
+  const json& j = c["auto_zoom"];
+  const int old_z = c["atts"][0]["nz"].get<int>();
+  const int new_z = 2 + j["new_z"].get<int>() % old_z; // 2..old_z+1
+  z.expl = true;
+  z.zxy = j["zxy"].get<float>();
+  z.zz = static_cast<float>(new_z - 1) / (old_z - 1);
+  z.sxy = j["sxy"].get<int>();
+  z.sz = new_z;
+  z.nz_ref = old_z;
+  return z;
+}
+
+//! SET_ZOOM event: factors exact for nz planes
+Zoom
+decode_zoom(int a, int b, int c, int nz)
+{
+  return exact_zoom(a, 2 + b % nz, c, nz); // new_z 2..nz+1
+}
+//! DOWNSAMPLE_SP event on an attenuation image of nz planes
+Zoom
+decode_dsp(int b, int d, int nz)
+{
+  return exact_zoom(d, 2 + b % (nz + 1), d / 10, nz); // new_z 2..nz+2
+}
+
+// ---- the plan: interpretation of a history on the JSON alone -------------------------------------------
+// One interpreter decides, for check(), known_signature(), the generator and nontrivial() alike, which events are
+// effective (arguments modulo the pools; events on an incomplete configuration are skipped), where set_up is called
+// (before a process_data / per-bin evaluation that follows a setter, and at the end of a history that ends with a setter)
+// and which set_up runs into a known finding.  For the latter it keeps what is known about the HIDDEN state of the
+// history object from reading ScatterSimulation.cxx:
+//  * the scatter-point image is absent / explicit / DERIVED by set_up (downsample_density_image_for_scatter_points with
+//    the stored factors); set_density_image_sptr resets it; nothing else does;
+//  * sample_scatter_points() runs when a scatter-point image is set or derived, with the threshold of that moment;
+//  * a derivation stores the factors it derived in the zoom settings (F4).
+enum Finding
+{
+  NONE = 0,
+  F4,
+  F5,
+  F6,
+  F7,
+  N_FINDINGS
+};
+const char* const finding_id[] = { "", "F4", "F5", "F6", "F7" };
+const char* const finding_signature[] = { "",
+                                          "C16:auto-zoom-overwritten:second-automatic-downsample",
+                                          "C16:derived-scatter-point-image-kept:downsample_images_to_scanner_size",
+                                          "C16:derived-scatter-point-image-kept:set_image_downsample_factors",
+                                          "C16:stale-scatter-points:set_attenuation_threshold-after-sampling" };
+
+//! set to true when the repair of F7 (set_attenuation_threshold re-samples the scatter points) is committed in /repo:
+//! the class is then part of the normal search (and known/C16/threshold_after_scatter_points_sampled.json moves to
+//! replays/C16/fixed_threshold_after_scatter_points_sampled.json)
+const bool F7_REPAIRED = false;
+
+struct Step
+{
+  int code = 0, a = 0, b = 0, c = 0, d = 0;
+  std::size_t index = 0;      // index of the event (== ops.size(): the set_up at the end of the history)
+  bool effective = false;     // false: skipped (incomplete configuration / precondition of the call not met)
+  bool set_up_before = false; // set_up is called first (SET_UP: this is all that happens)
+  Finding finding = NONE;     // that set_up runs into this known finding (never set when the exclusion is lifted)
+  int nz = 0;                 // SET_ZOOM / DOWNSAMPLE_SP: number of planes the factors are exact for
+  int tmpl = -1, att = -1;    // pool indices current at this step (att: last pool image set)
+  bool complete = false;      // configuration complete at this step
+};
+
+struct Plan
+{
+  std::vector<Step> steps;
+  Finding first = NONE;
+  std::size_t first_step = 0; // index into steps
+  bool att_downsampled_at_first = false; // and it has >= 2 planes (DOWNSAMPLE_SP is possible)
+};
+
+Plan
+make_plan(const json& c)
+{
+  Plan plan;
+  const json& ops = c["ops"];
+  const int nt = int(c["templates"].size()), ne = int(c["exams"].size()), na = int(c["acts"].size()), nm = int(c["atts"].size());
+  if (nt == 0 || ne == 0 || na == 0 || nm == 0)
+    return plan;
+  const int pool_nz = c["atts"][0]["nz"].get<int>();
+  // visible settings
+  int tmpl = -1, att_pool = -1;
+  bool tmpl_file = false, have_exam = false, have_act = false, have_att = false;
+  bool dirty = true, use_cache = true;
+  double thr = c["thr"].get<double>();
+  Zoom zoom = initial_zoom(c);
+  // attenuation image: identity, planes, grid key
+  long att_id = 0;
+  int att_nz = 0;
+  std::string att_grid;
+  bool att_downsampled = false;
+  // hidden state
+  enum
+  {
+    SP_NONE,
+    SP_EXPLICIT,
+    SP_DERIVED
+  } sp
+      = SP_NONE;
+  double sampled_thr = thr;
+  bool zoom_clean = true; // the stored settings are what the user set
+  std::string ovw_grid;
+  int ovw_tmplkey = -1;
+  long der_att_id = -1;
+  Zoom der_zoom;
+  int der_tmplkey = -1;
+
+  auto tmplkey = [&]() { return tmpl * 2 + (tmpl_file ? 1 : 0); };
+  auto pool_grid = [&](int i, bool file) {
+    const json& g = c["atts"][std::size_t(i)];
+    return cat(file ? "f" : "p", ":", g["nx"].dump(), ",", g["ny"].dump(), ",", g["nz"].dump(), ",", g["vx"].dump(), ",", g["vy"].dump(), ",",
+               g["vz"].dump());
+  };
+  auto complete = [&]() { return tmpl >= 0 && have_exam && have_act && have_att; };
+  auto hit = [&](Finding f) { return f != NONE && !no_exclude(finding_id[f]); };
+
+  // returns the known finding this set_up runs into (NONE: none, or lifted) and updates the hidden state
+  auto set_up_point = [&]() -> Finding {
+    Finding f = NONE;
+    const bool had_image = sp != SP_NONE;
+    if (sp == SP_DERIVED)
+      {
+        if (der_att_id != att_id)
+          f = F5;
+        else if (!(der_zoom == zoom))
+          f = F6;
+        else if (!zoom.expl && der_tmplkey != tmplkey())
+          f = F4;
+      }
+    else if (sp == SP_NONE)
+      {
+        if (!zoom_clean && !(ovw_tmplkey == tmplkey() && ovw_grid == att_grid))
+          f = F4;
+      }
+    if (hit(f))
+      return f;
+    if (!F7_REPAIRED && had_image && sampled_thr != thr && hit(F7))
+      return F7;
+    if (sp == SP_NONE)
+      {
+        sp = SP_DERIVED;
+        der_att_id = att_id;
+        der_zoom = zoom;
+        der_tmplkey = tmplkey();
+        sampled_thr = thr;
+        if (!zoom.expl || zoom.nz_ref != att_nz)
+          {
+            zoom_clean = false;
+            ovw_tmplkey = tmplkey();
+            ovw_grid = att_grid;
+          }
+      }
+    dirty = false;
+    return NONE;
+  };
+
+  auto set_pool_att = [&](int i, bool file) {
+    att_pool = i;
+    have_att = true;
+    ++att_id;
+    att_nz = c["atts"][std::size_t(i)]["nz"].get<int>();
+    att_grid = pool_grid(i, file);
+    att_downsampled = false;
+    sp = SP_NONE; // set_density_image_sptr: "make sure that we're not re-using a previously interpolated image for scatter points"
+    dirty = true;
+  };
+
+  if (c.contains("start") && c["start"].is_object())
+    {
+      // H is constructed from a parameter file: complete configuration
+      const json& st = c["start"];
+      tmpl = st["tmpl"].get<int>() % nt;
+      tmpl_file = true;
+      have_exam = true;
+      have_act = true;
+      set_pool_att(st["att"].get<int>() % nm, true);
+      if (st["sp"].is_array())
+        {
+          sp = SP_EXPLICIT;
+          sampled_thr = thr;
+        }
+      use_cache = st["cache"].get<bool>();
+    }
+
+  auto finish = [&](Step& s, std::size_t k) {
+    if (s.finding != NONE && plan.first == NONE)
+      {
+        plan.first = s.finding;
+        plan.first_step = k;
+        plan.att_downsampled_at_first = att_downsampled && att_nz >= 2;
+      }
+  };
+
+  for (std::size_t i = 0; i < ops.size(); ++i)
+    {
+      Step s;
+      s.index = i;
+      s.code = ops[i][0].get<int>() % N_OPS;
+      s.a = ops[i][1];
+      s.b = ops[i][2];
+      s.c = ops[i][3];
+      s.d = ops[i][4];
+      s.effective = true;
+      switch (s.code)
+        {
+        case SET_ACT:
+        case SET_ACT_FILE:
+          have_act = true;
+          dirty = true;
+          break;
+        case SET_ATT: set_pool_att(s.a % nm, false); break;
+        case SET_ATT_FILE: set_pool_att(s.a % nm, true); break;
+        case SET_SP:
+        case SET_SP_FILE:
+          sp = SP_EXPLICIT;
+          sampled_thr = thr;
+          dirty = true;
+          break;
+        case SET_TMPL:
+          tmpl = s.a % nt;
+          tmpl_file = false;
+          dirty = true;
+          break;
+        case SET_TMPL_FILE:
+          tmpl = s.a % nt;
+          tmpl_file = true;
+          have_exam = true;
+          dirty = true;
+          break;
+        case SET_EXAM:
+        case SET_EXAM_SPTR:
+          have_exam = true;
+          dirty = true;
+          break;
+        case SET_CACHE:
+        case SET_CACHE_ENABLED:
+          // the property speaks about changes "followed by set-up"; neither function invalidates the set-up itself
+          if (use_cache != bool(s.a & 1))
+            dirty = true;
+          use_cache = bool(s.a & 1);
+          break;
+        case SET_THR:
+          thr = THR_VALUES[s.a % 5];
+          dirty = true;
+          break;
+        case SET_ZOOM:
+          s.nz = (have_att && att_nz >= 2) ? att_nz : pool_nz;
+          zoom = decode_zoom(s.a, s.b, s.c, s.nz);
+          zoom_clean = true; // all four settings are overwritten
+          dirty = true;
+          break;
+        case DOWNSAMPLE_IMAGES:
+          // "if (is_null_ptr(proj_data_info_sptr)) return Succeeded::no"
+          if (tmpl < 0)
+            {
+              s.effective = false;
+              break;
+            }
+          if (have_att)
+            {
+              ++att_id;
+              att_nz = 2 * tmpl_rings(c["templates"][std::size_t(tmpl)]) - 1; // VoxelsOnCartesianGrid(ProjDataInfo)
+              att_grid = cat("T", tmplkey());
+              att_downsampled = true;
+            }
+          if (have_att || have_act)
+            dirty = true;
+          break;
+        case DOWNSAMPLE_SP:
+          // "downsampling function called before attenuation image is set"; zoom_z = (new_z-1)/(old_z-1) needs old_z >= 2
+          if (!have_att || att_nz < 2)
+            {
+              s.effective = false;
+              break;
+            }
+          s.nz = att_nz;
+          zoom = decode_dsp(s.b, s.d, s.nz); // the function stores its arguments with set_image_downsample_factors
+          zoom_clean = true;
+          sp = SP_EXPLICIT;
+          sampled_thr = thr;
+          dirty = true;
+          break;
+        case SET_UP:
+        case PROCESS:
+        case EVAL_BINS:
+          if (!complete())
+            {
+              s.effective = false;
+              break;
+            }
+          if (s.code == SET_UP || dirty)
+            {
+              s.set_up_before = true;
+              s.finding = set_up_point();
+            }
+          break;
+        default: break;
+        }
+      s.tmpl = tmpl;
+      s.att = att_pool;
+      s.complete = complete();
+      plan.steps.push_back(s);
+      finish(plan.steps.back(), plan.steps.size() - 1);
+      if (plan.steps.back().finding != NONE)
+        return plan; // nothing behind a known finding is planned
+    }
+  if (complete() && dirty)
+    {
+      Step s;
+      s.index = ops.size();
+      s.code = SET_UP;
+      s.effective = true;
+      s.set_up_before = true;
+      s.finding = set_up_point();
+      s.tmpl = tmpl;
+      s.att = att_pool;
+      s.complete = true;
+      plan.steps.push_back(s);
+      finish(plan.steps.back(), plan.steps.size() - 1);
+    }
+  return plan;
+}
+
+std::string
+known_signature(const json& c)
+{
+  return finding_signature[make_plan(c).first];
+}
+
+//! generator side: rewrite the history so that it stays outside the known findings (the search goes on behind them):
+//! give an explicit scatter-point image before the set_up (set_density_image_for_scatter_points_sptr, or, when the
+//! attenuation image is a down-sampled one, downsample_density_image_for_scatter_points on the object itself, which
+//! keeps the images consistent in z)
+void
+avoid_known_findings(json& c, Src& s)
+{
+  for (int guard = 0; guard < 200; ++guard)
+    {
+      const Plan p = make_plan(c);
+      if (p.first == NONE)
+        return;
+      const Step& st = p.steps[p.first_step];
+      json op;
+      if (p.att_downsampled_at_first)
+        op = { int(DOWNSAMPLE_SP), 0, int(s.range(0, 999)), 0, int(s.range(0, 999)) };
+      else
+        op = { int(SET_SP), std::max(st.att, 0), int(s.range(0, 999)), 1 + 3 * int(s.range(0, 4)), int(s.range(0, 999)) };
+      stats().count(std::string("generator avoided known finding ") + finding_id[p.first]);
+      json& ops = c["ops"];
+      ops.insert(ops.begin() + std::ptrdiff_t(std::min(st.index, ops.size())), op);
+    }
+}
+
 // ---- model of the current settings -------------------------------------------------------------------
 struct Model
 {
-  int tmpl = -1, exam = -1, act = -1, att = -1;
-  bool sp_set = false;
-  SpRecipe sp;
+  int tmpl = -1; // pool index (statistics / recipes)
+  bool tmpl_file = false;
+  Tmpl t;                                                // template as passed to set_template_proj_data_info (+ down-sampling request)
+  shared_ptr<const ProjDataInfo> eff_pdi;                // the template the simulation works with (after downsample_scanner)
+  shared_ptr<ExamInfo> exam;
+  shared_ptr<const Image> act, att;                      // the images as the object has them now
+  bool sp_set = false;                                   // explicit scatter-point image
+  shared_ptr<const DiscretisedDensity<3, float>> sp_img; // that image
   bool use_cache = true;
   bool dirty = true;
-  bool complete() const { return tmpl >= 0 && exam >= 0 && act >= 0 && att >= 0; }
+  double thr = 0.01;
+  Zoom zoom;
+  long version = 0; // incremented by every event that may change the output
+  bool complete() const { return t.pdi && exam && act && att; }
 };
-
-struct Settings
-{
-  float thr;
-  bool explicit_zoom = false;
-  float zxy = -1, zz = -1;
-  int sxy = -1, sz = -1;
-};
-
-void
-init_obj(SingleScatterSimulation& s, const Settings& st)
-{
-  s.set_attenuation_threshold(st.thr);
-  s.set_randomly_place_scatter_points(false);
-  if (st.explicit_zoom)
-    s.set_image_downsample_factors(st.zxy, st.zz, st.sxy, st.sz);
-}
 
 shared_ptr<ProjDataInMemory>
 new_output(const SingleScatterSimulation& s)
@@ -287,26 +794,36 @@ max_abs(const Out& o)
   return m;
 }
 
-//! fresh object configured from the model, set up and run
+//! fresh object configured from the model through the *_sptr setters
 struct Fresh
 {
   shared_ptr<Sim> s;
   shared_ptr<ProjDataInMemory> out;
 };
 
+void
+init_obj(SingleScatterSimulation& s, const Model& M)
+{
+  s.set_attenuation_threshold(float(M.thr));
+  s.set_randomly_place_scatter_points(false);
+  if (M.zoom.expl)
+    s.set_image_downsample_factors(M.zoom.zxy, M.zoom.zz, M.zoom.sxy, M.zoom.sz);
+}
+
 Fresh
-configure_fresh(const Pools& P, const Settings& st, const Model& M, bool use_cache, shared_ptr<const DiscretisedDensity<3, float>> act)
+configure_fresh(const Model& M, bool use_cache, shared_ptr<const DiscretisedDensity<3, float>> act, bool with_template = true)
 {
   Fresh f;
   f.s.reset(new Sim);
-  init_obj(*f.s, st);
+  init_obj(*f.s, M);
   f.s->set_use_cache(use_cache);
-  f.s->set_exam_info(*P.exams[M.exam]);
-  apply_tmpl(*f.s, P.tmpls[M.tmpl]);
+  f.s->set_exam_info(*M.exam);
+  if (with_template)
+    apply_tmpl(*f.s, M.t);
   f.s->set_activity_image_sptr(act);
-  f.s->set_density_image_sptr(P.atts[M.att]);
+  f.s->set_density_image_sptr(M.att);
   if (M.sp_set)
-    f.s->set_density_image_for_scatter_points_sptr(make_sp(P, M.sp));
+    f.s->set_density_image_for_scatter_points_sptr(M.sp_img);
   return f;
 }
 
@@ -425,13 +942,33 @@ check_output(Sim& s, const Out& out, bool nonneg_activity)
   return Result::pass();
 }
 
-bool
-same_grid(const json& a, const json& b)
+//! the image downsample_images_to_scanner_size() is documented to make: "Downsamples activity and attenuation images to
+//! voxel sizes appropriate for the (downsampled) scanner": zoom_image onto VoxelsOnCartesianGrid(template), activity
+//! preserving projections, attenuation preserving values.  Made here with the public zoom_image (C15), not through the class.
+shared_ptr<const Image>
+zoom_to_template(const Image& in, const ProjDataInfo& pdi, bool activity)
 {
-  for (const char* k : { "nx", "ny", "nz", "vx", "vy", "vz" })
-    if (a[k] != b[k])
-      return false;
-  return true;
+  Image tmpl_image(pdi);
+  shared_ptr<Image> out(tmpl_image.get_empty_copy());
+  zoom_image(*out, in, ZoomOptions(activity ? ZoomOptions::preserve_projections : ZoomOptions::preserve_values));
+  return out;
+}
+
+shared_ptr<const Image>
+as_image(shared_ptr<DiscretisedDensity<3, float>> d)
+{
+  shared_ptr<const Image> im = std::dynamic_pointer_cast<const Image>(d);
+  if (!im)
+    error("file does not contain a VoxelsOnCartesianGrid<float>");
+  return im;
+}
+
+std::string
+float_text(float v)
+{
+  std::ostringstream o;
+  o << std::setprecision(9) << v;
+  return o.str();
 }
 
 // ---- the property ------------------------------------------------------------------------------------
@@ -440,7 +977,6 @@ check(const json& c)
 {
   vg::quiet();
   Pools P;
-  Settings st;
   try
     {
       for (auto& j : c["templates"])
@@ -461,33 +997,137 @@ check(const json& c)
     {
       return Result::reject(std::string("construction rejected: ") + e.what());
     }
-  st.thr = c["thr"].get<float>();
-  if (c["auto_zoom"].is_object())
-    {
-      // explicit factors for the automatic down-sampling in set_up: exact for the (shared) number of attenuation planes
-      const json& z = c["auto_zoom"];
-      const int old_z = P.atts[0]->get_z_size();
-      const int new_z = 2 + z["new_z"].get<int>() % old_z; // 2..old_z+1
-      st.explicit_zoom = true;
-      st.zxy = z["zxy"].get<float>();
-      st.zz = static_cast<float>(new_z - 1) / (old_z - 1);
-      st.sxy = z["sxy"].get<int>();
-      st.sz = new_z;
-      stats().cls("explicit zoom factors for set_up");
-    }
-
-  Sim H;
-  init_obj(H, st);
+  const Plan plan = make_plan(c);
+  TmpDir tmp;
   Model M;
+  M.thr = c["thr"].get<double>();
+  M.zoom = initial_zoom(c);
+  if (M.zoom.expl)
+    stats().cls("explicit zoom factors for set_up");
+
+  // ---- files written by the harness; the model uses what the harness reads back from them ----
+  std::map<std::string, std::pair<std::string, shared_ptr<const Image>>> image_files;
+  auto image_file = [&](const std::string& key, const DiscretisedDensity<3, float>& img) -> const std::pair<std::string, shared_ptr<const Image>>& {
+    auto it = image_files.find(key);
+    if (it == image_files.end())
+      {
+        const std::string fn = write_to_file(tmp.file(key), img);
+        shared_ptr<DiscretisedDensity<3, float>> rb(read_from_file<DiscretisedDensity<3, float>>(fn));
+        it = image_files.insert(std::make_pair(key, std::make_pair(fn, as_image(rb)))).first;
+        stats().count("image files written");
+      }
+    return it->second;
+  };
+  struct TmplFile
+  {
+    std::string fn;
+    shared_ptr<ProjDataInfo> pdi;
+    shared_ptr<ExamInfo> exam;
+  };
+  auto template_file = [&](int t, int e) -> TmplFile {
+    TmplFile f;
+    const std::string stem = tmp.file(cat("tmpl", t, "_", e));
+    {
+      ProjDataInterfile pd(P.exams[e], P.tmpls[t].pdi->create_shared_clone(), stem, std::ios::in | std::ios::out | std::ios::trunc);
+    }
+    f.fn = stem + ".hs";
+    shared_ptr<ProjData> rb(ProjData::read_from_file(f.fn));
+    f.pdi = rb->get_proj_data_info_sptr()->create_shared_clone();
+    f.exam = rb->get_exam_info().create_shared_clone();
+    stats().count("template files written");
+    return f;
+  };
+  //! the template the simulation works with, from a helper object (not from H)
+  auto effective_pdi = [&](const Tmpl& t) -> shared_ptr<const ProjDataInfo> {
+    SingleScatterSimulation h;
+    apply_tmpl(h, t);
+    return h.get_template_proj_data_info_sptr();
+  };
+
+  // ---- the history object: default constructed, or constructed from a parameter file ----
+  shared_ptr<Sim> Hs;
+  bool own_output_valid = false; // H holds an output made by the class itself for the current template
+  if (c.contains("start") && c["start"].is_object())
+    {
+      const json& st = c["start"];
+      const int t = st["tmpl"].get<int>() % int(P.tmpls.size()), e = st["exam"].get<int>() % int(P.exams.size());
+      const int ia = st["act"].get<int>() % int(P.acts.size()), im = st["att"].get<int>() % int(P.atts.size());
+      TmplFile tf = template_file(t, e);
+      const auto& fa = image_file(cat("act", ia), *P.acts[ia]);
+      const auto& fm = image_file(cat("att", im), *P.atts[im]);
+      M.tmpl = t;
+      M.tmpl_file = true;
+      M.t = P.tmpls[t];
+      M.t.pdi = tf.pdi;
+      M.exam = tf.exam;
+      M.act = fa.second;
+      M.att = fm.second;
+      M.use_cache = st["cache"].get<bool>();
+      std::string par = "PET Single Scatter Simulation Parameters :=\n";
+      par += "template projdata filename := " + tf.fn + "\n";
+      par += "attenuation image filename := " + fm.first + "\n";
+      par += "activity image filename := " + fa.first + "\n";
+      if (st["sp"].is_array())
+        {
+          const SpRecipe r = decode_sp(P, st["sp"][0], st["sp"][1], st["sp"][2], st["sp"][3], t);
+          const auto& fs = image_file(cat("sp_start"), *make_sp(P, r));
+          M.sp_set = true;
+          M.sp_img = fs.second;
+          par += "attenuation image for scatter points filename := " + fs.first + "\n";
+        }
+      if (M.zoom.expl)
+        {
+          par += "zoom XY for attenuation image for scatter points := " + float_text(M.zoom.zxy) + "\n";
+          par += "zoom Z for attenuation image for scatter points := " + float_text(M.zoom.zz) + "\n";
+          par += cat("XY size of downsampled image for scatter points := ", M.zoom.sxy, "\n");
+          par += cat("Z size of downsampled image for scatter points := ", M.zoom.sz, "\n");
+        }
+      par += "attenuation threshold := " + float_text(float(M.thr)) + "\n";
+      par += "randomly place scatter points := 0\n";
+      par += cat("use cache := ", M.use_cache ? 1 : 0, "\n");
+      if (st["outfile"].get<bool>())
+        {
+          par += "output filename prefix := " + tmp.file("parout") + "\n";
+          own_output_valid = true;
+        }
+      par += "end PET Single Scatter Simulation Parameters :=\n";
+      const std::string parfn = tmp.file("sss") + ".par";
+      {
+        std::ofstream f(parfn);
+        f << par;
+      }
+      Hs.reset(new Sim(parfn));
+      // the threshold parsed from text must be the float the model uses
+      apply_down(*Hs, M.t, false);
+      if (M.t.down)
+        own_output_valid = true; // downsample_scanner: set_output_proj_data(output_proj_data_filename)
+      M.eff_pdi = effective_pdi(M.t);
+      ++M.version;
+      stats().cls("history object constructed from a parameter file");
+    }
+  else
+    {
+      Hs.reset(new Sim);
+      init_obj(*Hs, M);
+    }
+  Sim& H = *Hs;
+
   bool H_downsampled_in_set_up = false; // statistics only
   long n_compared = 0, n_setters_since_process = 0;
   bool had_process = false;
   shared_ptr<ProjDataInMemory> H_out_pd;
+  // the output of a fresh object for the current model (reused while the model does not change)
+  struct
+  {
+    long version = -1;
+    Out out;
+    shared_ptr<Sim> s;
+  } fresh_cache;
 
-  // set_up on H with the same outcome as on a fresh object; returns false if both reject the configuration
+  // set_up on H with the same outcome as on a fresh object; rejected: both reject the configuration
   auto do_set_up = [&](bool& rejected) -> Result {
     rejected = false;
-    // (histories that run into the known finding never get here unless VERIF_NO_EXCLUDE is set: known_signature())
+    // (histories that run into a known finding never get here unless VERIF_NO_EXCLUDE is set: known_signature())
     if (!M.sp_set)
       {
         stats().count("set_up with automatic scatter-point down-sampling");
@@ -517,7 +1157,7 @@ check(const json& c)
         bool f_threw = false;
         try
           {
-            Fresh f = configure_fresh(P, st, M, M.use_cache, P.acts[M.act]);
+            Fresh f = configure_fresh(M, M.use_cache, M.act);
             f_threw = set_up_obj(*f.s) != Succeeded::yes;
           }
         catch (const std::runtime_error&)
@@ -532,62 +1172,209 @@ check(const json& c)
     return Result::pass();
   };
 
-  const json& ops = c["ops"];
-  for (std::size_t i = 0; i < ops.size(); ++i)
+  //! output of a freshly configured object for the current model
+  auto fresh_output = [&](bool other_cache_mode, std::size_t i, Out& f_out, shared_ptr<Sim>& fs) -> Result {
+    if (fresh_cache.version == M.version)
+      {
+        f_out = fresh_cache.out;
+        fs = fresh_cache.s;
+        stats().count("fresh output reused (model unchanged)");
+        return Result::pass();
+      }
+    Fresh f;
+    try
+      {
+        f = configure_fresh(M, other_cache_mode ? !M.use_cache : M.use_cache, M.act);
+        if (set_up_obj(*f.s) != Succeeded::yes)
+          error("set_up returned Succeeded::no");
+      }
+    catch (const std::runtime_error& e)
+      {
+        return Result::fail(cat("event ", i, ": set_up succeeded after the history but a fresh object with the same settings rejects them: ", e.what()));
+      }
+    Result r = run(*f.s, f.out, f_out, "fresh object");
+    if (r.failed())
+      return r;
+    if (other_cache_mode)
+      stats().count("fresh object in the OTHER cache mode");
+    fresh_cache.version = M.version;
+    fresh_cache.out = f_out;
+    fresh_cache.s = f.s;
+    fs = f.s;
+    return Result::pass();
+  };
+
+  auto changed = [&]() {
+    M.dirty = true;
+    ++M.version;
+    ++n_setters_since_process;
+  };
+  auto set_template_in_model = [&](int t, bool file) {
+    M.tmpl = t;
+    M.tmpl_file = file;
+    M.eff_pdi = effective_pdi(M.t);
+    own_output_valid = M.t.down; // downsample_scanner makes an output for the new template
+  };
+
+  for (const Step& s : plan.steps)
     {
-      const int code = ops[i][0].get<int>() % N_OPS;
-      const int a = ops[i][1], b = ops[i][2], cc = ops[i][3], d = ops[i][4];
-      switch (code)
+      if (s.finding != NONE)
+        return Result::reject(std::string("known:") + finding_signature[s.finding]); // only reached without known_signature()
+      const std::size_t i = s.index;
+      if (!s.effective)
+        {
+          if (s.code == DOWNSAMPLE_IMAGES)
+            VF_CHECK(H.downsample_images_to_scanner_size() == Succeeded::no, "event ", i,
+                     ": downsample_images_to_scanner_size without a template does not return Succeeded::no");
+          stats().count(s.code == SET_UP || s.code == PROCESS || s.code == EVAL_BINS ? "events skipped: configuration incomplete"
+                                                                                       : "events skipped: precondition of the call not met");
+          continue;
+        }
+      const int a = s.a, b = s.b, cc = s.c, d = s.d;
+      switch (s.code)
         {
         case SET_ACT:
-          M.act = a % int(P.acts.size());
-          H.set_activity_image_sptr(P.acts[M.act]);
-          M.dirty = true;
-          ++n_setters_since_process;
+          M.act = P.acts[a % int(P.acts.size())];
+          H.set_activity_image_sptr(M.act);
+          changed();
           break;
+        case SET_ACT_FILE: {
+          const int k = a % int(P.acts.size());
+          const auto& f = image_file(cat("act", k), *P.acts[k]);
+          H.set_activity_image(f.first);
+          M.act = f.second;
+          changed();
+          stats().count("setters by file name");
+          break;
+        }
         case SET_ATT:
-          M.att = a % int(P.atts.size());
-          H.set_density_image_sptr(P.atts[M.att]);
+          M.att = P.atts[a % int(P.atts.size())];
+          H.set_density_image_sptr(M.att);
           M.sp_set = false; // documented: "make sure that we're not re-using a previously interpolated image for scatter points"
-          M.dirty = true;
-          ++n_setters_since_process;
+          changed();
           break;
-        case SET_SP:
-          M.sp = decode_sp(P, a, b, cc, d, M.tmpl);
+        case SET_ATT_FILE: {
+          const int k = a % int(P.atts.size());
+          const auto& f = image_file(cat("att", k), *P.atts[k]);
+          H.set_density_image(f.first); // = set_density_image_sptr(read_from_file(..))
+          M.att = f.second;
+          M.sp_set = false;
+          changed();
+          stats().count("setters by file name");
+          break;
+        }
+        case SET_SP: {
+          const SpRecipe r = decode_sp(P, a, b, cc, d, M.tmpl);
+          M.sp_img = make_sp(P, r);
           M.sp_set = true;
-          H.set_density_image_for_scatter_points_sptr(make_sp(P, M.sp));
-          M.dirty = true;
-          ++n_setters_since_process;
+          H.set_density_image_for_scatter_points_sptr(M.sp_img);
+          changed();
           break;
+        }
+        case SET_SP_FILE: {
+          const SpRecipe r = decode_sp(P, a, b, cc, d, M.tmpl);
+          const std::string fn = write_to_file(tmp.file("sp"), *make_sp(P, r));
+          shared_ptr<DiscretisedDensity<3, float>> rb(read_from_file<DiscretisedDensity<3, float>>(fn));
+          M.sp_img = as_image(rb);
+          M.sp_set = true;
+          H.set_density_image_for_scatter_points(fn);
+          changed();
+          stats().count("setters by file name");
+          break;
+        }
+        case DOWNSAMPLE_SP: {
+          // on H itself, from its current attenuation image; the model image comes from a helper object
+          const Zoom z = decode_dsp(b, d, s.nz);
+          VF_CHECK(M.att && M.att->get_z_size() == s.nz, "harness: plan and model disagree on the number of attenuation planes");
+          {
+            SingleScatterSimulation h;
+            h.set_randomly_place_scatter_points(false);
+            h.set_density_image_sptr(M.att);
+            h.downsample_density_image_for_scatter_points(z.zxy, z.zz, z.sxy, z.sz);
+            M.sp_img.reset(h.get_density_image_for_scatter_points_sptr()->clone());
+          }
+          M.sp_set = true;
+          M.zoom = z; // the function stores its arguments (it calls set_image_downsample_factors)
+          H.downsample_density_image_for_scatter_points(z.zxy, z.zz, z.sxy, z.sz);
+          changed();
+          stats().count("downsample_density_image_for_scatter_points on the history object");
+          break;
+        }
         case SET_TMPL:
-          M.tmpl = a % int(P.tmpls.size());
-          apply_tmpl(H, P.tmpls[M.tmpl]);
-          M.dirty = true;
-          ++n_setters_since_process;
+          M.t = P.tmpls[a % int(P.tmpls.size())];
+          apply_tmpl(H, M.t, cc % 3 == 0);
+          set_template_in_model(a % int(P.tmpls.size()), false);
+          changed();
           break;
+        case SET_TMPL_FILE: {
+          const int t = a % int(P.tmpls.size()), e = b % int(P.exams.size());
+          TmplFile f = template_file(t, e);
+          M.t = P.tmpls[t];
+          M.t.pdi = f.pdi;
+          M.exam = f.exam;
+          H.set_template_proj_data_info(f.fn); // sets the exam info of the file as well
+          apply_down(H, M.t, cc % 3 == 0);
+          set_template_in_model(t, true);
+          changed();
+          stats().count("setters by file name");
+          break;
+        }
         case SET_EXAM:
-          M.exam = a % int(P.exams.size());
-          H.set_exam_info(*P.exams[M.exam]);
-          M.dirty = true;
-          ++n_setters_since_process;
+          M.exam = P.exams[a % int(P.exams.size())];
+          H.set_exam_info(*M.exam);
+          changed();
+          break;
+        case SET_EXAM_SPTR:
+          M.exam = P.exams[a % int(P.exams.size())];
+          H.set_exam_info_sptr(M.exam);
+          changed();
           break;
         case SET_CACHE:
-          // the property speaks about changes "followed by set-up"; set_use_cache itself does not invalidate the set-up
+        case SET_CACHE_ENABLED:
+          // the property speaks about changes "followed by set-up"; neither function invalidates the set-up itself
           // (probe for the observation in work/notes/C16_findings.md: VERIF_C16_NO_SETUP_AFTER_CACHE=1)
           if (M.use_cache != bool(a & 1) && !std::getenv("VERIF_C16_NO_SETUP_AFTER_CACHE"))
             M.dirty = true;
           M.use_cache = bool(a & 1);
-          H.set_use_cache(M.use_cache);
+          if (s.code == SET_CACHE)
+            H.set_use_cache(M.use_cache);
+          else
+            H.set_cache_enabled(M.use_cache);
+          VF_CHECK(H.get_use_cache() == M.use_cache, "event ", i, ": get_use_cache() is ", H.get_use_cache(), " after ",
+                   s.code == SET_CACHE ? "set_use_cache(" : "set_cache_enabled(", M.use_cache, ")");
           ++n_setters_since_process;
           break;
-        case SET_UP:
-        case PROCESS: {
-          if (!M.complete())
+        case SET_THR:
+          M.thr = THR_VALUES[a % 5];
+          H.set_attenuation_threshold(float(M.thr));
+          changed();
+          break;
+        case SET_ZOOM:
+          M.zoom = decode_zoom(a, b, cc, s.nz);
+          H.set_image_downsample_factors(M.zoom.zxy, M.zoom.zz, M.zoom.sxy, M.zoom.sz);
+          changed();
+          break;
+        case DOWNSAMPLE_IMAGES: {
+          // model first (from the images the object has now), then the call
+          if (M.act)
+            M.act = zoom_to_template(*M.act, *M.eff_pdi, true);
+          if (M.att)
             {
-              stats().count("events skipped: configuration incomplete");
-              break;
+              M.att = zoom_to_template(*M.att, *M.eff_pdi, false);
+              VF_CHECK(M.att->get_z_size() == 2 * M.eff_pdi->get_scanner_ptr()->get_num_rings() - 1,
+                       "harness: planes of the template image");
+              // an explicit scatter-point image stays (the function does not touch it)
             }
-          if (code == SET_UP || M.dirty)
+          VF_CHECK(H.downsample_images_to_scanner_size() == Succeeded::yes, "event ", i, ": downsample_images_to_scanner_size returned Succeeded::no");
+          if (M.act || M.att)
+            changed();
+          stats().count("downsample_images_to_scanner_size on the history object");
+          break;
+        }
+        case SET_UP:
+        case PROCESS:
+        case EVAL_BINS: {
+          if (s.set_up_before)
             {
               bool rejected;
               Result r = do_set_up(rejected);
@@ -601,31 +1388,92 @@ check(const json& c)
                   return Result::pass();
                 }
             }
-          if (code == SET_UP)
+          else
+            VF_CHECK(!M.dirty, "harness: plan and model disagree on the need for set_up");
+          if (s.code == SET_UP)
             break;
-          // ---- process_data on H, compare with a fresh object ----
-          Out h_out, f_out;
-          Result r = run(H, H_out_pd, h_out, "history object");
-          if (r.failed())
-            return r;
-          Fresh f;
-          try
+          Out f_out;
+          shared_ptr<Sim> fs;
+          if (s.code == EVAL_BINS)
             {
-              f = configure_fresh(P, st, M, M.use_cache, P.acts[M.act]);
-              if (set_up_obj(*f.s) != Succeeded::yes)
-                error("set_up returned Succeeded::no");
+              // ---- scatter_estimate(bin) in a generated order, compared with the stored bins of a fresh object ----
+              Result r = fresh_output(false, i, f_out, fs);
+              if (r.failed())
+                return r;
+              std::vector<BinKey> bins;
+              for (auto& kv : f_out)
+                bins.push_back(kv.first);
+              SplitMix g(uint64_t(a) * 1000003ULL + uint64_t(b));
+              for (std::size_t k = bins.size(); k > 1; --k)
+                std::swap(bins[k - 1], bins[std::size_t(g.range(0, long(k) - 1))]);
+              if (cc % 4 == 1)
+                std::reverse(bins.begin(), bins.end());
+              if (cc % 4 == 0)
+                {
+                  std::sort(bins.begin(), bins.end());
+                  std::reverse(bins.begin(), bins.end()); // exactly the reverse of the order of process_data's numbering
+                }
+              const std::size_t n = (cc % 3 == 2) ? 1 + std::size_t(d) % bins.size() : bins.size();
+              const double scale = max_abs(f_out);
+              double worst = 0;
+              for (std::size_t k = 0; k < n; ++k)
+                {
+                  const BinKey& bk = bins[k];
+                  const double est = H.scatter_estimate(Bin(std::get<0>(bk), std::get<2>(bk), std::get<1>(bk), std::get<3>(bk)));
+                  const double diff = std::fabs(double(float(est)) - double(f_out.at(bk)));
+                  worst = std::max(worst, diff);
+                  if (!(diff <= TOL_FRESH * scale))
+                    return Result::fail(cat("event ", i, ": scatter_estimate(bin) evaluated as number ", k, " of a generated order, bin(seg ", std::get<0>(bk),
+                                            ", ax ", std::get<1>(bk), ", view ", std::get<2>(bk), ", tang ", std::get<3>(bk), ") = ", est,
+                                            " but process_data of a freshly constructed simulation stores ", f_out.at(bk), " (max |reference| ", scale, ")"));
+                }
+              if (scale > 0)
+                stats().maxi("max rel err per-bin evaluation in generated order vs fresh", worst / scale);
+              stats().count("per-bin evaluations in a generated order", long(n));
+              stats().count("EVAL_BINS events compared with fresh object");
+              ++n_compared;
+              break;
             }
-          catch (const std::runtime_error& e)
-            {
-              return Result::fail(cat("event ", i, ": set_up succeeded after the history but a fresh object with the same settings rejects them: ", e.what()));
-            }
-          r = run(*f.s, f.out, f_out, "fresh object");
+          // ---- process_data on H (output provided through one of the public routes), compare with a fresh object ----
+          shared_ptr<ProjData> h_pd;
+          {
+            int route = b % 7;
+            if (route == 6 && !own_output_valid)
+              route = 0;
+            switch (route)
+              {
+              case 2:
+                H.set_output_proj_data(std::string()); // in memory, made by the class
+                break;
+              case 3: H.set_output_proj_data(tmp.file("out")); break;
+              case 4: H.set_output_proj_data_sptr(H.get_exam_info_sptr(), H.get_template_proj_data_info_sptr(), std::string()); break;
+              case 5: H.set_output_proj_data_sptr(H.get_exam_info_sptr(), H.get_template_proj_data_info_sptr(), tmp.file("out")); break;
+              case 6: break; // the output the class made itself (downsample_scanner / "output filename prefix")
+              default:
+                H_out_pd = new_output(H);
+                H.set_output_proj_data_sptr(H_out_pd);
+                break;
+              }
+            stats().count(cat("process_data output route ", route));
+            own_output_valid = route >= 2;
+            const Succeeded ok = H.process_data();
+            VF_CHECK(ok == Succeeded::yes, "history object: process_data returned Succeeded::no");
+            h_pd = H.get_output_proj_data_sptr();
+          }
+          const Out h_out = read_out(*h_pd);
+          Result r = fresh_output((cc & 1) != 0, i, f_out, fs);
           if (r.failed())
             return r;
           r = compare(h_out, f_out, max_abs(f_out), TOL_FRESH, cat("event ", i, ": output after the history vs freshly constructed simulation"),
                       "max rel err history vs fresh");
           if (r.failed())
             return r;
+          // other observable state that must agree with the fresh object
+          VF_CHECK(H.get_num_scatter_points() == fs->get_num_scatter_points(), "event ", i, ": ", H.get_num_scatter_points(),
+                   " scatter points after the history but ", fs->get_num_scatter_points(), " in a freshly constructed simulation");
+          for (float e : { 511.F, 430.F, 350.F })
+            VF_CHECK(H.detection_efficiency(e) == fs->detection_efficiency(e), "event ", i, ": detection_efficiency(", e, ") = ", H.detection_efficiency(e),
+                     " after the history but ", fs->detection_efficiency(e), " in a freshly constructed simulation");
           r = check_output(H, h_out, true);
           if (r.failed())
             return r;
@@ -644,33 +1492,21 @@ check(const json& c)
 
   if (!M.complete())
     return n_compared > 0 ? Result::pass() : Result::reject("history never reaches a complete configuration");
+  VF_CHECK(!M.dirty, "harness: the plan ends with a set_up when the history ends with a setter");
 
-  if (M.dirty)
-    {
-      // bring H (and, through the exclusions, the model) to a set-up state as for a SET_UP event
-      bool rejected;
-      Result r = do_set_up(rejected);
-      if (r.failed())
-        return r;
-      if (rejected)
-        {
-          stats().count("histories ended by an error() of set_up");
-          return n_compared > 0 ? Result::pass() : Result::reject("set_up rejected the configuration");
-        }
-    }
   // ---- final state: cache on/off, linearity, zero, on ONE fresh object G (setters + set_up between the runs) ----
   {
     const json& lin = c["lin"];
     const double alpha = lin["a"], beta = lin["b"];
-    shared_ptr<const Image> x1 = P.acts[M.act];
+    shared_ptr<const Image> x1 = M.act;
     shared_ptr<Image> x2(x1->get_empty_copy());
     vg::fill_random(*x2, lin["seed"].get<uint64_t>(), 0., 2.);
     shared_ptr<Image> x3(x1->clone());
     *x3 *= float(alpha);
     {
-      Image tmp(*x2);
-      tmp *= float(beta);
-      *x3 += tmp;
+      Image tmp_img(*x2);
+      tmp_img *= float(beta);
+      *x3 += tmp_img;
     }
     shared_ptr<Image> x0(x1->get_empty_copy());
     x0->fill(0.F);
@@ -679,10 +1515,10 @@ check(const json& c)
     Out o1, o2, o3, o0, ooff;
     try
       {
-        g = configure_fresh(P, st, M, M.use_cache, x1);
+        g = configure_fresh(M, M.use_cache, x1);
         if (set_up_obj(*g.s) != Succeeded::yes)
           error("Succeeded::no");
-        goff = configure_fresh(P, st, M, !M.use_cache, x1);
+        goff = configure_fresh(M, !M.use_cache, x1);
         if (set_up_obj(*goff.s) != Succeeded::yes)
           error("Succeeded::no");
       }
@@ -706,6 +1542,66 @@ check(const json& c)
     if (r.failed())
       return r;
     stats().count("cache on/off comparisons");
+
+    // ---- the scanner is down-sampled by set_up itself (set_downsample_scanner_bool / keywords); one set_up only:
+    //      "ScatterSimulation: set_up() called twice. This is currently not supported."
+    //      "if (downsample_scanner_rings > 1) new_num_rings = downsample_scanner_rings": only for >= 2 rings ----
+    if (M.t.down && M.t.new_rings >= 2)
+      {
+        shared_ptr<Sim> J;
+        const bool by_keywords = (lin["seed"].get<uint64_t>() & 1) != 0;
+        if (by_keywords)
+          {
+            std::string par = "PET Single Scatter Simulation Parameters :=\n";
+            par += "downsample scanner := 1\n";
+            par += cat("downsampled scanner number of rings := ", M.t.new_rings, "\n");
+            par += cat("downsampled scanner number of detectors per ring := ", M.t.new_dets, "\n");
+            par += "attenuation threshold := " + float_text(float(M.thr)) + "\n";
+            par += "randomly place scatter points := 0\n";
+            par += cat("use cache := ", M.use_cache ? 1 : 0, "\n");
+            if (M.zoom.expl)
+              {
+                par += "zoom XY for attenuation image for scatter points := " + float_text(M.zoom.zxy) + "\n";
+                par += "zoom Z for attenuation image for scatter points := " + float_text(M.zoom.zz) + "\n";
+                par += cat("XY size of downsampled image for scatter points := ", M.zoom.sxy, "\n");
+                par += cat("Z size of downsampled image for scatter points := ", M.zoom.sz, "\n");
+              }
+            par += "end PET Single Scatter Simulation Parameters :=\n";
+            const std::string parfn = tmp.file("sssJ") + ".par";
+            {
+              std::ofstream f(parfn);
+              f << par;
+            }
+            J.reset(new Sim(parfn));
+            VF_CHECK(J->get_downsample_scanner_bool() && J->get_num_downsample_scanner_rings() == M.t.new_rings
+                         && J->get_num_downsample_scanner_dets() == M.t.new_dets && J->get_use_cache() == M.use_cache,
+                     "keywords for the scanner down-sampling / cache are not what the getters report");
+            stats().count("set_up down-samples the scanner: configured by keywords");
+          }
+        else
+          {
+            J.reset(new Sim);
+            init_obj(*J, M);
+            J->set_use_cache(M.use_cache);
+            J->set_downsample_scanner_bool(true);
+            J->set_num_downsample_scanner_rings(M.t.new_rings);
+            J->set_num_downsample_scanner_dets(M.t.new_dets);
+            stats().count("set_up down-samples the scanner: configured by setters");
+          }
+        J->set_exam_info(*M.exam);
+        J->set_template_proj_data_info(*M.t.pdi);
+        J->set_activity_image_sptr(x1);
+        J->set_density_image_sptr(M.att);
+        if (M.sp_set)
+          J->set_density_image_for_scatter_points_sptr(M.sp_img);
+        VF_CHECK(set_up_obj(*J) == Succeeded::yes, "set_up with scanner down-sampling returned Succeeded::no");
+        VF_CHECK(J->process_data() == Succeeded::yes, "process_data after set_up with scanner down-sampling returned Succeeded::no");
+        const Out oj = read_out(*J->get_output_proj_data_sptr());
+        r = compare(oj, o1, max_abs(o1), TOL_FRESH, "scanner down-sampled by set_up (downsample scanner := 1) vs downsample_scanner(rings, dets) before set_up",
+                    "max rel err down-sampling in set_up vs explicit");
+        if (r.failed())
+          return r;
+      }
 
     auto rerun = [&](shared_ptr<const Image> x, Out& o, const char* who) -> Result {
       g.s->set_activity_image_sptr(x);
@@ -742,126 +1638,10 @@ check(const json& c)
     else
       stats().cls("final output all zero");
     stats().cls(M.use_cache ? "final state: cache on" : "final state: cache off");
-    if (P.tmpls[M.tmpl].down)
+    if (M.t.down)
       stats().cls("final template through downsample_scanner");
   }
   return Result::pass();
-}
-
-// ---- known finding: classification of a history without running it ----------------------------------------
-// The same interpretation of the events as in check() (indices modulo the pools, set_up before a process_data that
-// follows a setter, set_up at the end of a history that ends with a setter), on the JSON only.
-//  F4 C16:auto-zoom-overwritten:second-automatic-downsample   set_up that has to derive the scatter-point image with the
-//     default zoom settings on an object that already derived one for another template or attenuation grid
-//     (incl. F4b: derived image kept by set_template_proj_data_info)
-enum Finding
-{
-  NONE = 0,
-  F4
-};
-const char* const finding_id[] = { "", "F4" };
-const char* const finding_signature[] = { "", "C16:auto-zoom-overwritten:second-automatic-downsample" };
-
-struct Hit
-{
-  Finding f = NONE;
-  std::size_t op = 0; // index of the event whose set_up runs into it (== ops.size(): the set_up at the end of the history)
-  int tmpl = -1, att = -1;
-};
-
-//! the first set_up of the history that runs into the known finding (unless switched off by VERIF_NO_EXCLUDE)
-Hit
-first_known_finding(const json& c)
-{
-  Hit none;
-  const json& ops = c["ops"];
-  const int nt = int(c["templates"].size()), ne = int(c["exams"].size()), na = int(c["acts"].size()), nm = int(c["atts"].size());
-  if (nt == 0 || ne == 0 || na == 0 || nm == 0)
-    return none;
-  const bool explicit_zoom = c["auto_zoom"].is_object();
-  int tmpl = -1, exam = -1, act = -1, att = -1;
-  bool sp_set = false, use_cache = true, dirty = true, derived = false;
-  int auto_tmpl = -1, auto_att = -1;
-  auto set_up_point = [&](std::size_t i) -> Hit {
-    Hit h;
-    h.op = i;
-    h.tmpl = tmpl;
-    h.att = att;
-    if (!sp_set && !explicit_zoom)
-      {
-        if (derived && !no_exclude("F4") && !(auto_tmpl == tmpl && same_grid(c["atts"][std::size_t(auto_att)], c["atts"][std::size_t(att)])))
-          {
-            h.f = F4;
-            return h;
-          }
-      }
-    if (!sp_set && !derived)
-      {
-        derived = true;
-        auto_tmpl = tmpl;
-        auto_att = att;
-      }
-    dirty = false;
-    return h;
-  };
-  for (std::size_t i = 0; i < ops.size(); ++i)
-    {
-      const int code = ops[i][0].get<int>() % N_OPS;
-      const int a = ops[i][1];
-      switch (code)
-        {
-        case SET_ACT: act = a % na; dirty = true; break;
-        case SET_ATT: att = a % nm; sp_set = false; dirty = true; break;
-        case SET_SP: sp_set = true; dirty = true; break;
-        case SET_TMPL: tmpl = a % nt; dirty = true; break;
-        case SET_EXAM: exam = a % ne; dirty = true; break;
-        case SET_CACHE:
-          if (use_cache != bool(a & 1))
-            dirty = true;
-          use_cache = bool(a & 1);
-          break;
-        default:
-          if (tmpl < 0 || exam < 0 || act < 0 || att < 0)
-            break;
-          if (code == SET_UP || dirty)
-            {
-              const Hit h = set_up_point(i);
-              if (h.f != NONE)
-                return h;
-            }
-          break;
-        }
-    }
-  if (tmpl >= 0 && exam >= 0 && act >= 0 && att >= 0 && dirty)
-    {
-      const Hit h = set_up_point(ops.size());
-      if (h.f != NONE)
-        return h;
-    }
-  return none;
-}
-
-std::string
-known_signature(const json& c)
-{
-  return finding_signature[first_known_finding(c).f];
-}
-
-//! generator side: rewrite the history so that it stays outside the known finding (the search goes on behind it):
-//! F4: give an explicit scatter-point image before the set_up
-void
-avoid_known_findings(json& c, Src& s)
-{
-  for (int guard = 0; guard < 200; ++guard)
-    {
-      const Hit h = first_known_finding(c);
-      if (h.f == NONE)
-        return;
-      const json op = { int(SET_SP), h.att, int(s.range(0, 999)), 1 + 3 * int(s.range(0, 4)), int(s.range(0, 999)) };
-      stats().count(std::string("generator avoided known finding ") + finding_id[h.f]);
-      json& ops = c["ops"];
-      ops.insert(ops.begin() + std::ptrdiff_t(std::min(h.op, ops.size())), op);
-    }
 }
 
 // ---- generator ---------------------------------------------------------------------------------------
@@ -935,6 +1715,7 @@ small_scanner(Src& s, int ndet, int rings, double bin, double ring_spacing)
   return j;
 }
 
+
 json
 gen(Src& s, int size)
 {
@@ -1002,7 +1783,15 @@ gen(Src& s, int size)
   c["exams"] = exams;
   // ---- images: inside the smallest detector ring ----
   const double extent = r_min * s.pick(std::vector<double>{ 0.6, 0.9, 1.1 });
-  const double L = axial_len * s.pick(std::vector<double>{ 0.5, 0.8, 1., 1.3 });
+  double L = axial_len * s.pick(std::vector<double>{ 0.5, 0.8, 1., 1.3 });
+  // half of the cases: the images have the axial extent of the image downsample_images_to_scanner_size makes for the
+  // first template, (2*rings-1 planes of ring_spacing/2), so that pool images and down-sampled images can be mixed
+  // (check_z_to_middle_consistent)
+  {
+    const int r0 = tmpl_rings(templates[0]);
+    if (r0 >= 2 && s.coin())
+      L = axial_len * double(r0 - 1) / double(r0);
+  }
   const int att_nz = int(s.range(3, 9)); // shared by all attenuation images (zoom_z compatibility)
   json acts = json::array(), atts = json::array();
   const int na = int(s.range(1, 3)), nm = int(s.range(1, 3));
@@ -1023,42 +1812,71 @@ gen(Src& s, int size)
   json ops = json::array();
   auto arg = [&]() { return int(s.range(0, 999)); };
   auto push = [&](int code) { ops.push_back({ code, arg(), arg(), arg(), arg() }); };
-  if (s.chance(19, 20))
+  if (s.chance(1, 6))
+    {
+      // the history object is constructed from a parameter file (complete configuration)
+      json st = { { "tmpl", arg() }, { "exam", arg() }, { "act", arg() }, { "att", arg() }, { "cache", s.coin() }, { "outfile", s.coin() } };
+      if (s.coin())
+        st["sp"] = { arg(), arg(), arg(), arg() };
+      else
+        st["sp"] = nullptr;
+      c["start"] = st;
+      if (s.coin())
+        push(PROCESS);
+    }
+  else if (s.chance(19, 20))
     {
       // start by a complete configuration in a random order
       std::vector<int> first = { SET_ACT, SET_ATT, SET_TMPL, SET_EXAM };
       for (int k = 3; k > 0; --k)
         std::swap(first[std::size_t(k)], first[std::size_t(s.range(0, k))]);
       for (int code : first)
-        push(code);
+        {
+          if (s.chance(1, 8))
+            code = code == SET_ACT ? SET_ACT_FILE : code == SET_ATT ? SET_ATT_FILE : code == SET_TMPL ? SET_TMPL_FILE : SET_EXAM_SPTR;
+          push(code);
+        }
       if (s.coin())
         push(PROCESS);
     }
   const int len = 4 + int(s.range(0, std::max(4, size / 3)));
   int n_process = 0;
+  // cumulative weights (per cent)
+  static const int W[N_OPS] = { /*SET_ACT*/ 8, /*SET_ATT*/ 8, /*SET_SP*/ 9, /*SET_TMPL*/ 8, /*SET_EXAM*/ 5, /*SET_CACHE*/ 4, /*SET_UP*/ 7,
+                                /*PROCESS*/ 18, /*SET_THR*/ 4, /*SET_ZOOM*/ 3, /*DOWNSAMPLE_IMAGES*/ 5, /*DOWNSAMPLE_SP*/ 4,
+                                /*SET_CACHE_ENABLED*/ 3, /*SET_EXAM_SPTR*/ 2, /*SET_ACT_FILE*/ 2, /*SET_ATT_FILE*/ 2, /*SET_SP_FILE*/ 2,
+                                /*SET_TMPL_FILE*/ 2, /*EVAL_BINS*/ 4 };
   for (int k = 0; k < len; ++k)
     {
-      const int w = int(s.range(0, 99));
-      int code;
-      if (w < 12)
-        code = SET_ACT;
-      else if (w < 24)
-        code = SET_ATT;
-      else if (w < 36)
-        code = SET_SP;
-      else if (w < 47)
-        code = SET_TMPL;
-      else if (w < 58)
-        code = SET_EXAM;
-      else if (w < 66)
-        code = SET_CACHE;
-      else if (w < 76)
-        code = SET_UP;
-      else
-        code = PROCESS;
-      if (code == PROCESS && ++n_process > 5)
+      int w = int(s.range(0, 99));
+      int code = 0;
+      while (code < N_OPS - 1 && w >= W[code])
+        w -= W[code++];
+      if ((code == PROCESS || code == EVAL_BINS) && ++n_process > 5)
         code = SET_ACT;
       push(code);
+      // motifs that keep line-integral caches alive across an event: a computation, ONE event, a computation
+      if (code == PROCESS && s.chance(1, 4) && n_process < 5)
+        {
+          ++n_process;
+          switch (int(s.range(0, 3)))
+            {
+            case 0: push(DOWNSAMPLE_IMAGES); break;
+            case 1: push(SET_ACT); break;
+            case 2: push(SET_THR); break;
+            default: push(s.coin() ? SET_CACHE_ENABLED : SET_EXAM_SPTR); break;
+            }
+          push(s.coin() ? EVAL_BINS : PROCESS);
+        }
+      else if (code == PROCESS && s.chance(1, 8) && n_process < 5)
+        {
+          // a change while the cache is switched off, then on again
+          ++n_process;
+          ops.push_back({ s.coin() ? int(SET_CACHE_ENABLED) : int(SET_CACHE), 0, arg(), arg(), arg() });
+          push(s.pick(std::vector<int>{ SET_ACT, SET_ACT, SET_ACT_FILE, DOWNSAMPLE_IMAGES, SET_EXAM }));
+          ops.push_back({ s.coin() ? int(SET_CACHE_ENABLED) : int(SET_CACHE), 1, arg(), arg(), arg() });
+          push(s.coin() ? EVAL_BINS : PROCESS);
+        }
     }
   if (s.chance(2, 3))
     push(PROCESS);
@@ -1072,41 +1890,107 @@ gen(Src& s, int size)
 bool
 nontrivial(const json& c)
 {
-  const int nt = int(c["templates"].size());
-  bool tm = false, ex = false, ac = false, at = false;
+  const Plan plan = make_plan(c);
   bool had_process = false, two_setters = false, oblique = false;
-  int setters = 0, cur_t = -1;
-  for (auto& op : c["ops"])
+  int setters = 0;
+  for (const Step& st : plan.steps)
     {
-      const int code = op[0].get<int>() % N_OPS;
-      switch (code)
+      if (!st.effective)
+        continue;
+      if (is_setter(st.code))
+        ++setters;
+      else if (st.code == PROCESS)
         {
-        case SET_ACT: ac = true; ++setters; break;
-        case SET_ATT: at = true; ++setters; break;
-        case SET_SP: ++setters; break;
-        case SET_TMPL: tm = true; cur_t = op[1].get<int>() % nt; ++setters; break;
-        case SET_EXAM: ex = true; ++setters; break;
-        case SET_CACHE: ++setters; break;
-        case PROCESS:
-          if (tm && ex && ac && at)
-            {
-              if (had_process && setters >= 2)
-                two_setters = true;
-              had_process = true;
-              setters = 0;
-              const json& t = c["templates"][std::size_t(cur_t)];
-              const int rings = t["kind"] == "down" ? t["new_rings"].get<int>() : t["scanner"]["rings"].get<int>();
-              const int md = t["pdi"]["max_delta"].get<int>();
-              // downsample_scanner: all ring differences if the original template has more than one segment, else none
-              const int span = t["pdi"]["span"].get<int>();
-              if (rings >= 2 && (t["kind"] == "down" ? md > span / 2 : md >= 1))
-                oblique = true;
-            }
-          break;
-        default: break;
+          if (had_process && setters >= 2)
+            two_setters = true;
+          had_process = true;
+          setters = 0;
+          const json& t = c["templates"][std::size_t(st.tmpl)];
+          const int rings = tmpl_rings(t);
+          const int md = t["pdi"]["max_delta"].get<int>();
+          // downsample_scanner: all ring differences if the original template has more than one segment, else none
+          const int span = t["pdi"]["span"].get<int>();
+          if (rings >= 2 && (t["kind"] == "down" ? md > span / 2 : md >= 1))
+            oblique = true;
         }
     }
   return two_setters && oblique;
+}
+
+// ---- fixed cases: the sequences that keep caches / detector numbering alive across ONE event, always run -----------
+//  A  explicit scatter-point image; process_data; downsample_images_to_scanner_size; process_data   (cache on)
+//  B  process_data; set_activity_image_sptr; scatter_estimate(bin) in the REVERSE order; process_data
+//  C  process_data; set_attenuation_threshold(same value); per-bin; set_cache_enabled(off); set_activity_image_sptr;
+//     set_cache_enabled(on); per-bin; process_data
+//  D  parameter-file start; process_data; set_activity_image(filename); per-bin evaluation of a subset; process_data
+std::vector<json>
+fixed_cases(int)
+{
+  std::vector<json> v;
+  for (int which = 0; which < 4; ++which)
+    for (int variant = 0; variant < 2; ++variant)
+      {
+        json c;
+        for (uint64_t seed = 1 + uint64_t(variant) * 1000;; ++seed)
+          {
+            PrngSrc s(seed * 7919 + uint64_t(which));
+            c = gen(s, 30);
+            const json& t0 = c["templates"][0];
+            const int r0 = tmpl_rings(t0);
+            const double axial = t0["scanner"]["ring_spacing"].get<double>() * t0["scanner"]["rings"].get<double>();
+            const double L = c["atts"][0]["vz"].get<double>() * (c["atts"][0]["nz"].get<int>() - 1);
+            // two or more rings, images of the axial extent of the template image, default zoom settings
+            if (r0 >= 2 && std::fabs(L - axial * (r0 - 1) / r0) < 1e-3 * L && !c["auto_zoom"].is_object() && c["thr"].get<double>() == 0.01
+                && c["acts"].size() >= 2)
+              break;
+          }
+        c.erase("start");
+        json ops = json::array();
+        const json cfg = { json::array({ int(SET_EXAM), 0, 0, 0, 0 }), json::array({ int(SET_TMPL), 0, 0, 1, 0 }),
+                           json::array({ int(SET_ACT), 0, 0, 0, 0 }), json::array({ int(SET_ATT), 0, 0, 0, 0 }),
+                           json::array({ int(SET_CACHE), 1, 0, 0, 0 }), json::array({ int(SET_SP), 0, 1 + variant, 1, 7 + variant }) };
+        switch (which)
+          {
+          case 0:
+            for (auto& o : cfg)
+              ops.push_back(o);
+            ops.push_back({ int(PROCESS), 0, 0, 0, 0 });
+            ops.push_back({ int(DOWNSAMPLE_IMAGES), 0, 0, 0, 0 });
+            ops.push_back({ int(PROCESS), 0, variant ? 3 : 0, 0, 0 });
+            break;
+          case 1:
+            for (auto& o : cfg)
+              ops.push_back(o);
+            ops.push_back({ int(PROCESS), 0, 0, 0, 0 });
+            ops.push_back({ int(SET_ACT), 1, 0, 0, 0 });
+            ops.push_back({ int(EVAL_BINS), 5, 7, variant ? 3 : 0, 0 }); // 0: reverse order, 3: generated permutation
+            ops.push_back({ int(PROCESS), 0, 2, 1, 0 });
+            break;
+          case 2:
+            for (auto& o : cfg)
+              ops.push_back(o);
+            ops.push_back({ int(PROCESS), 0, 4, 0, 0 });
+            ops.push_back({ int(SET_THR), 0, 0, 0, 0 }); // THR_VALUES[0] == 0.01 == c["thr"]
+            ops.push_back({ int(EVAL_BINS), 2, 5, 3, 0 });
+            ops.push_back({ int(SET_CACHE_ENABLED), 0, 0, 0, 0 });
+            ops.push_back({ int(SET_ACT), 1, 0, 0, 0 }); // while the cache is off
+            ops.push_back({ int(SET_CACHE_ENABLED), 1, 0, 0, 0 });
+            ops.push_back({ int(EVAL_BINS), 11, 3, 1, 0 });
+            ops.push_back({ int(PROCESS), 0, 5, 1, 0 });
+            break;
+          default:
+            c["start"] = { { "tmpl", 0 }, { "exam", 0 }, { "act", 0 }, { "att", 0 }, { "cache", true }, { "outfile", variant == 1 } };
+            c["start"]["sp"] = json::array({ 0, 2, 1, 5 });
+            ops.push_back({ int(PROCESS), 0, 6, 0, 0 });
+            ops.push_back({ int(SET_ACT_FILE), 1, 0, 0, 0 });
+            ops.push_back({ int(EVAL_BINS), 3, 9, 2, 5 });
+            ops.push_back({ int(PROCESS), 0, 3, 1, 0 });
+            break;
+          }
+        c["ops"] = ops;
+        v.push_back(c);
+      }
+  return v;
 }
 
 } // namespace
@@ -1121,5 +2005,6 @@ the_property()
   p.nontrivial = nontrivial;
   p.shrink_lists = { "ops" };
   p.known_signature = known_signature;
+  p.fixed_cases = fixed_cases;
   return p;
 }
